@@ -497,8 +497,8 @@ Section NoCodeInst.
   Lemma ncj_first c p : pktpren p ->
     exists o1, or_push E p (or_new toi max) c = (o1, c) /\ PSn o1 /\ C02Full.LiveAll [pid_of p] o1.
   Proof.
-    intros (Ht & Ho & Hcp & Hcl & Gp).
-    destruct (pre_first E cfg oti content toi md5 al as_ nal n Hfec He Hb HL Hu64 Hpart Htoi Hnice f Htl c p _ _ Ht Ho Hcp Hcl Gp)
+    intros (Ht & Ho & Hcp & Gp).
+    destruct (pre_first E cfg oti content toi md5 al as_ nal n Hfec He Hb HL Hu64 Hpart Htoi Hnice f Htl c p _ _ Ht Ho Hcp Gp)
       as (o1 & Eq & P1 & L1).
     exists o1. split; [exact Eq|]. split; [exact P1|]. intros s i [H|[]]. rewrite H in L1. exact L1.
   Qed.
@@ -506,8 +506,8 @@ Section NoCodeInst.
   Lemma ncj_push o c seen p : PSn o -> C02Full.LiveAll seen o -> pktpren p ->
     exists o1, or_push E p o c = (o1, c) /\ PSn o1 /\ C02Full.LiveAll (pid_of p :: seen) o1.
   Proof.
-    intros PS0 Lv (Ht & _ & Hcp & Hcl & Gp).
-    destruct (pre_or_push E cfg oti content toi md5 al as_ nal n Hfec He Hb HL Hu64 Hpart Htoi Hnice f Htl o c p _ _ PS0 Ht Hcp Hcl Gp)
+    intros PS0 Lv (Ht & _ & Hcp & Gp).
+    destruct (pre_or_push E cfg oti content toi md5 al as_ nal n Hfec He Hb HL Hu64 Hpart Htoi Hnice f Htl o c p _ _ PS0 Ht Hcp Gp)
       as (o1 & Eq & P1 & M1 & L1).
     exists o1. split; [exact Eq|]. split; [exact P1|]. intros s i [H|H]; [rewrite H in L1; exact L1|apply M1, Lv, H].
   Qed.
@@ -910,13 +910,15 @@ Section RSInst.
   Qed.
 
   (* one more packet of the object before any FDT instance: decoded, nothing written, the log untouched *)
-  Lemma rpre_or_push o c p sbn esi : PreR o -> a_toi p = toi -> a_cenc p = None -> a_close_obj p = false ->
+  (* a close-object flag on such a packet is ignored: the object has no writer yet (D44) *)
+  Lemma rpre_or_push o c p sbn esi : PreR o -> a_toi p = toi -> a_cenc p = None ->
     genuine_at oti content rep al as_ nal n p sbn esi -> sized oti (a_payload p) ->
     exists o1, or_push E p o c = (o1, c) /\ PreR o1 /\ C02RS.Mono o o1 /\ C02RS.LiveOne sbn esi o1.
   Proof.
-    intros PS Ht Hcp Hcl G Hz. rewrite (rpre_or_push_static o c p PS Ht Hcp).
+    intros PS Ht Hcp G Hz. rewrite (rpre_or_push_static o c p PS Ht Hcp).
     destruct (rpre_p2b o c p sbn esi PS G Hz) as (o1 & Eq & P1 & M1 & L1).
-    unfold push_to_block. rewrite Eq, Hcl. exists o1. split; [reflexivity|]. split; [exact P1|split; assumption].
+    unfold push_to_block. rewrite Eq, (pr_state _ P1), (pr_writer _ P1).
+    exists o1. split; [destruct (a_close_obj p); reflexivity|]. split; [exact P1|split; assumption].
   Qed.
 
   Definition rpre_init : objrecv :=
@@ -932,11 +934,11 @@ Section RSInst.
     - lia.
   Qed.
 
-  Lemma rpre_first c p sbn esi : a_toi p = toi -> a_oti p = Some (oti, Lc) -> a_cenc p = None -> a_close_obj p = false ->
+  Lemma rpre_first c p sbn esi : a_toi p = toi -> a_oti p = Some (oti, Lc) -> a_cenc p = None ->
     genuine_at oti content rep al as_ nal n p sbn esi -> sized oti (a_payload p) ->
     exists o1, or_push E p (or_new toi max) c = (o1, c) /\ PreR o1 /\ C02RS.LiveOne sbn esi o1.
   Proof.
-    intros Ht Ho Hcp Hcl G Hz.
+    intros Ht Ho Hcp G Hz.
     assert (Eq : or_push E p (or_new toi max) c = or_push E p rpre_init c).
     { rewrite (rpre_or_push_static rpre_init c p rpre_init_ok Ht Hcp).
       unfold or_push, or_new. prj. rewrite Ht, Hcp, Ho. destruct (N.eqb_spec toi 0) as [G0|_]; [contradiction|]. cbv iota beta.
@@ -952,7 +954,7 @@ Section RSInst.
       rewrite I2. cbv iota beta. change (r_state rpre_init) with Receiving. cbv iota beta.
       rewrite I3. cbv iota beta. change (r_state rpre_init) with Receiving. cbv iota beta.
       change (r_oti rpre_init) with (Some oti). cbv iota beta. reflexivity. }
-    rewrite Eq. destruct (rpre_or_push rpre_init c p sbn esi rpre_init_ok Ht Hcp Hcl G Hz) as (o1 & E1 & P1 & _ & L1).
+    rewrite Eq. destruct (rpre_or_push rpre_init c p sbn esi rpre_init_ok Ht Hcp G Hz) as (o1 & E1 & P1 & _ & L1).
     exists o1. split; [exact E1|split; assumption].
   Qed.
 
@@ -1025,23 +1027,23 @@ Section RSInst.
   Qed.
 
   (* what S2 asks of a packet that arrives before the FDT instance: EXT_FTI with the object's OTI and
-     length, no EXT_CENC, no close-object flag *)
+     length, no EXT_CENC; it may carry the close-object flag (ignored while there is no writer, D44) *)
   Definition pktprer (p : apkt) : Prop :=
-    a_toi p = toi /\ a_oti p = Some (oti, Lc) /\ a_cenc p = None /\ a_close_obj p = false /\ genr p.
+    a_toi p = toi /\ a_oti p = Some (oti, Lc) /\ a_cenc p = None /\ genr p.
 
   Lemma rsj_first c p : pktprer p ->
     exists o1, or_push E p (or_new toi max) c = (o1, c) /\ PreR o1 /\ C02RS.LiveAll [pidr p] o1.
   Proof.
-    intros (Ht & Ho & Hcp & Hcl & Gp & Zp).
-    destruct (rpre_first c p _ _ Ht Ho Hcp Hcl Gp Zp) as (o1 & Eq & P1 & L1).
+    intros (Ht & Ho & Hcp & Gp & Zp).
+    destruct (rpre_first c p _ _ Ht Ho Hcp Gp Zp) as (o1 & Eq & P1 & L1).
     exists o1. split; [exact Eq|]. split; [exact P1|]. intros s i [H|[]]. rewrite H in L1. exact L1.
   Qed.
 
   Lemma rsj_push o c seen p : PreR o -> C02RS.LiveAll seen o -> pktprer p ->
     exists o1, or_push E p o c = (o1, c) /\ PreR o1 /\ C02RS.LiveAll (pidr p :: seen) o1.
   Proof.
-    intros PS0 Lv (Ht & _ & Hcp & Hcl & Gp & Zp).
-    destruct (rpre_or_push o c p _ _ PS0 Ht Hcp Hcl Gp Zp) as (o1 & Eq & P1 & M1 & L1).
+    intros PS0 Lv (Ht & _ & Hcp & Gp & Zp).
+    destruct (rpre_or_push o c p _ _ PS0 Ht Hcp Gp Zp) as (o1 & Eq & P1 & M1 & L1).
     exists o1. split; [exact Eq|]. split; [exact P1|]. intros s i [H|H]; [rewrite H in L1; exact L1|apply M1, Lv, H].
   Qed.
 
@@ -1096,6 +1098,46 @@ Proof.
   eapply sess_done_delivered; eassumption.
 Qed.
 
+(* D44: the packets of pkts1 may carry the close-object flag; a flag in pkts2 only once pkts1 and the packets up to it are recoverable *)
+Theorem nocode_session_fdt_late_via_iface_any_flag_before_fdt E parse_fdt cfg oti content toi md5 now pf id foti d inst pkts1 pkts2 :
+  let L := lenN_ content in
+  nocode_ok oti L -> toi <> 0 ->
+  fdt_pkt_ok pf id foti d -> parse_fdt d = Some inst -> fdt_live cfg inst pf now ->
+  fdt_entry_for (fi_files inst) (fi_oti inst) toi oti L md5 ->
+  writer_accepts E toi -> writes_succeed E toi -> md5_good E content md5 ->
+  L <= cf_max_cache cfg -> nb_blocks_of oti L <= 4097 ->
+  Forall (fun p => a_toi p = toi) (pkts1 ++ pkts2) ->
+  Forall (fun p => genuine_pkt oti content p = true) (pkts1 ++ pkts2) ->
+  Forall (fun p => a_oti p = Some (oti, L) /\ a_cenc p = None) pkts1 ->
+  close_flag_ok_after (recoverable oti L) pkts1 pkts2 ->
+  recoverable oti L (pkts1 ++ pkts2) = true ->
+  let '(_, r, c) := recv_run E parse_fdt cfg recv0 (map (fun p => RvPush p now) (pkts1 ++ pf :: pkts2)) ctx0 in
+  session_delivered cfg inst content toi r c.
+Proof.
+  intros L (Hfec & He & Hb & HL & Hu) Htoi Hpf Hparse Hlive (f & F1 & F2 & F3 & F4 & F5) Hacc Hwr Hmd5 Hmax Hn T G Pre1 Cl Rec.
+  destruct (partition_of oti L) as [[[al as_] nal] n] eqn:Hpart. unfold partition_of in Hpart.
+  assert (Hnb : nb_blocks_of oti L = n) by (unfold nb_blocks_of; rewrite Hpart; reflexivity).
+  assert (Cov : forall l, recoverable oti L l = true -> C02Full.covered al as_ nal n (map pid_of l)).
+  { intros l H. apply recoverable_covered. unfold recoverable, source_ks, partition_of in H. rewrite Hpart in H. exact H. }
+  assert (Nc : C02Full.Nice2 E content (toi, 0%nat) md5 (cf_max_cache cfg) n).
+  { split; [split; [exact Hwr|exact Hmd5]|]. split; [exact Hmax|]. rewrite <- Hnb. exact Hn. }
+  apply Forall_app in T. destruct T as [T1 T2]. apply Forall_app in G. destruct G as [G1 G2].
+  pose proof (genuine_pkt_spec _ _ _ _ _ _ _ Hpart G1) as G1'. pose proof (genuine_pkt_spec _ _ _ _ _ _ _ Hpart G2) as G2'.
+  assert (P1 : Forall (C02Session.PktPre oti content toi al as_ nal n) pkts1).
+  { rewrite Forall_forall in *. intros p Hp. destruct (Pre1 p Hp) as (A1 & A2).
+    split; [exact (T1 p Hp)|]. split; [exact A1|]. split; [exact A2|exact (G1' p Hp)]. }
+  pose proof (nocode_late_via_iface E parse_fdt cfg oti content toi md5 al as_ nal n now Hfec He Hb HL Hu Hpart Htoi Nc Hacc
+                id inst f F1 F2 F3 F4 F5 pf foti d Hpf Hparse Hlive pkts1 pkts2 P1 G2' T2) as D.
+  assert (D' : let '(_, r, c) := recv_run E parse_fdt cfg recv0 (map (fun p => RvPush p now) (pkts1 ++ pf :: pkts2)) ctx0 in
+               SessDone cfg content toi f r c).
+  { apply D.
+    - intros pre p post Eq Hp. apply Cov. exact (Cl pre p post Eq Hp).
+    - apply Cov. exact Rec. }
+  destruct (recv_run E parse_fdt cfg recv0 (map (fun p => RvPush p now) (pkts1 ++ pf :: pkts2)) ctx0) as [[xs r] c].
+  eapply sess_done_delivered; eassumption.
+Qed.
+
+(* the statement as it was before D44 was repaired: a corollary *)
 Theorem nocode_session_fdt_late_via_iface E parse_fdt cfg oti content toi md5 now pf id foti d inst pkts1 pkts2 :
   let L := lenN_ content in
   nocode_ok oti L -> toi <> 0 ->
@@ -1111,28 +1153,10 @@ Theorem nocode_session_fdt_late_via_iface E parse_fdt cfg oti content toi md5 no
   let '(_, r, c) := recv_run E parse_fdt cfg recv0 (map (fun p => RvPush p now) (pkts1 ++ pf :: pkts2)) ctx0 in
   session_delivered cfg inst content toi r c.
 Proof.
-  intros L (Hfec & He & Hb & HL & Hu) Htoi Hpf Hparse Hlive (f & F1 & F2 & F3 & F4 & F5) Hacc Hwr Hmd5 Hmax Hn T G Pre1 Cl Rec.
-  destruct (partition_of oti L) as [[[al as_] nal] n] eqn:Hpart. unfold partition_of in Hpart.
-  assert (Hnb : nb_blocks_of oti L = n) by (unfold nb_blocks_of; rewrite Hpart; reflexivity).
-  assert (Cov : forall l, recoverable oti L l = true -> C02Full.covered al as_ nal n (map pid_of l)).
-  { intros l H. apply recoverable_covered. unfold recoverable, source_ks, partition_of in H. rewrite Hpart in H. exact H. }
-  assert (Nc : C02Full.Nice2 E content (toi, 0%nat) md5 (cf_max_cache cfg) n).
-  { split; [split; [exact Hwr|exact Hmd5]|]. split; [exact Hmax|]. rewrite <- Hnb. exact Hn. }
-  apply Forall_app in T. destruct T as [T1 T2]. apply Forall_app in G. destruct G as [G1 G2].
-  pose proof (genuine_pkt_spec _ _ _ _ _ _ _ Hpart G1) as G1'. pose proof (genuine_pkt_spec _ _ _ _ _ _ _ Hpart G2) as G2'.
-  assert (P1 : Forall (C02Session.PktPre oti content toi al as_ nal n) pkts1).
-  { rewrite Forall_forall in *. intros p Hp. destruct (Pre1 p Hp) as (A1 & A2 & A3).
-    split; [exact (T1 p Hp)|]. split; [exact A1|]. split; [exact A2|]. split; [exact A3|exact (G1' p Hp)]. }
-  pose proof (nocode_late_via_iface E parse_fdt cfg oti content toi md5 al as_ nal n now Hfec He Hb HL Hu Hpart Htoi Nc Hacc
-                id inst f F1 F2 F3 F4 F5 pf foti d Hpf Hparse Hlive pkts1 pkts2 P1 G2' T2) as D.
-  assert (D' : let '(_, r, c) := recv_run E parse_fdt cfg recv0 (map (fun p => RvPush p now) (pkts1 ++ pf :: pkts2)) ctx0 in
-               SessDone cfg content toi f r c).
-  { apply D.
-    - intros pre p post Eq Hp. apply Cov. rewrite app_assoc. apply (Cl (pkts1 ++ pre) p post); [|exact Hp].
-      rewrite Eq, <- app_assoc. reflexivity.
-    - apply Cov. exact Rec. }
-  destruct (recv_run E parse_fdt cfg recv0 (map (fun p => RvPush p now) (pkts1 ++ pf :: pkts2)) ctx0) as [[xs r] c].
-  eapply sess_done_delivered; eassumption.
+  intros L. intros.
+  apply (nocode_session_fdt_late_via_iface_any_flag_before_fdt E parse_fdt cfg oti content toi md5 now pf id foti d inst pkts1 pkts2); try assumption.
+  - match goal with H : Forall _ pkts1 |- _ => eapply Forall_impl; [|exact H] end. intros p (A1 & A2 & _). split; assumption.
+  - apply close_flag_ok_after_of_whole. assumption.
 Qed.
 
 (* ---------- Reed-Solomon (FEC 5, FEC 129) ---------- *)
@@ -1183,10 +1207,11 @@ Proof.
   eapply sess_done_delivered; eassumption.
 Qed.
 
-(* S2rs: packets of the object carrying EXT_FTI arrive BEFORE the FDT instance (no close-object flag among them, no
-   EXT_CENC): they are decoded - the decoder oracle is consulted - without writer; the instance opens the writer and
+(* S2rs: packets of the object carrying EXT_FTI arrive BEFORE the FDT instance (no EXT_CENC; before D44 was repaired
+   also: no close-object flag among them): they are decoded - the decoder oracle is consulted - without writer; the instance opens the writer and
    flushes the completed blocks; the rest of the packets follow *)
-Theorem rs_session_fdt_late_delivers E parse_fdt cfg oti content rep toi md5 now pf id foti d inst pkts1 pkts2 :
+(* D44: the packets of pkts1 may carry the close-object flag; a flag in pkts2 only once pkts1 and the packets up to it are recoverable *)
+Theorem rs_session_fdt_late_delivers_any_flag_before_fdt E parse_fdt cfg oti content rep toi md5 now pf id foti d inst pkts1 pkts2 :
   let L := lenN_ content in
   rs_scheme_ok oti L -> rs_blocks_ok oti L -> toi <> 0 ->
   fdt_pkt_ok pf id foti d -> parse_fdt d = Some inst -> fdt_live cfg inst pf now ->
@@ -1196,8 +1221,8 @@ Theorem rs_session_fdt_late_delivers E parse_fdt cfg oti content rep toi md5 now
   rs_mem_need oti L <= cf_max_cache cfg -> nb_blocks_of oti L <= 4097 ->
   Forall (fun p => a_toi p = toi) (pkts1 ++ pkts2) ->
   Forall (fun p => rs_genuine_pkt oti content rep p = true) (pkts1 ++ pkts2) ->
-  Forall (fun p => a_oti p = Some (oti, L) /\ a_cenc p = None /\ a_close_obj p = false) pkts1 ->
-  rs_close_flag_ok oti L (pkts1 ++ pkts2) ->
+  Forall (fun p => a_oti p = Some (oti, L) /\ a_cenc p = None) pkts1 ->
+  close_flag_ok_after (rs_recoverable oti L) pkts1 pkts2 ->
   rs_recoverable oti L (pkts1 ++ pkts2) = true ->
   let '(_, r, c) := recv_run E parse_fdt cfg recv0 (map (fun p => RvPush p now) (pkts1 ++ pf :: pkts2)) ctx0 in
   session_delivered cfg inst content toi r c.
@@ -1220,18 +1245,40 @@ Proof.
   apply Forall_app in T. destruct T as [T1 T2]. apply Forall_app in G. destruct G as [G1 G2].
   pose proof (Gall _ G1) as G1'. pose proof (Gall _ G2) as G2'.
   assert (P1 : Forall (pktprer oti content rep toi al as_ nal n) pkts1).
-  { rewrite Forall_forall in *. intros p Hp. destruct (Pre1 p Hp) as (A1 & A2 & A3).
-    split; [exact (T1 p Hp)|]. split; [exact A1|]. split; [exact A2|]. split; [exact A3|exact (G1' p Hp)]. }
+  { rewrite Forall_forall in *. intros p Hp. destruct (Pre1 p Hp) as (A1 & A2).
+    split; [exact (T1 p Hp)|]. split; [exact A1|]. split; [exact A2|exact (G1' p Hp)]. }
   pose proof (rs_late_core E parse_fdt cfg oti content rep toi md5 al as_ nal n now Hfec He Hb HL Hu Hpart' Htoi Hsound HM Nc Hacc
                 id inst f F1 F2 F3 F4 F5 pf foti d Hpf Hparse Hlive pkts1 pkts2 P1 G2' T2) as D.
   assert (D' : let '(_, r, c) := recv_run E parse_fdt cfg recv0 (map (fun p => RvPush p now) (pkts1 ++ pf :: pkts2)) ctx0 in
                SessDone cfg content toi f r c).
   { apply D.
-    - intros pre p post Eq Hp. apply Cov. rewrite app_assoc. apply (Cl (pkts1 ++ pre) p post); [|exact Hp].
-      rewrite Eq, <- app_assoc. reflexivity.
+    - intros pre p post Eq Hp. apply Cov. exact (Cl pre p post Eq Hp).
     - apply Cov. exact Rec. }
   destruct (recv_run E parse_fdt cfg recv0 (map (fun p => RvPush p now) (pkts1 ++ pf :: pkts2)) ctx0) as [[xs r] c].
   eapply sess_done_delivered; eassumption.
+Qed.
+
+(* the statement as it was before D44 was repaired: a corollary *)
+Theorem rs_session_fdt_late_delivers E parse_fdt cfg oti content rep toi md5 now pf id foti d inst pkts1 pkts2 :
+  let L := lenN_ content in
+  rs_scheme_ok oti L -> rs_blocks_ok oti L -> toi <> 0 ->
+  fdt_pkt_ok pf id foti d -> parse_fdt d = Some inst -> fdt_live cfg inst pf now ->
+  fdt_entry_for (fi_files inst) (fi_oti inst) toi oti L md5 ->
+  writer_accepts E toi -> writes_succeed E toi -> md5_good E content md5 ->
+  rs_oracle_mds E oti content rep toi ->
+  rs_mem_need oti L <= cf_max_cache cfg -> nb_blocks_of oti L <= 4097 ->
+  Forall (fun p => a_toi p = toi) (pkts1 ++ pkts2) ->
+  Forall (fun p => rs_genuine_pkt oti content rep p = true) (pkts1 ++ pkts2) ->
+  Forall (fun p => a_oti p = Some (oti, L) /\ a_cenc p = None /\ a_close_obj p = false) pkts1 ->
+  rs_close_flag_ok oti L (pkts1 ++ pkts2) ->
+  rs_recoverable oti L (pkts1 ++ pkts2) = true ->
+  let '(_, r, c) := recv_run E parse_fdt cfg recv0 (map (fun p => RvPush p now) (pkts1 ++ pf :: pkts2)) ctx0 in
+  session_delivered cfg inst content toi r c.
+Proof.
+  intros L. intros.
+  apply (rs_session_fdt_late_delivers_any_flag_before_fdt E parse_fdt cfg oti content rep toi md5 now pf id foti d inst pkts1 pkts2); try assumption.
+  - match goal with H : Forall _ pkts1 |- _ => eapply Forall_impl; [|exact H] end. intros p (A1 & A2 & _). split; assumption.
+  - apply close_flag_ok_after_of_whole. assumption.
 Qed.
 
 (* ---------- RaptorQ (FEC 6) / Raptor (FEC 1) ---------- *)
@@ -1277,7 +1324,8 @@ Proof.
   eapply sess_done_delivered; eassumption.
 Qed.
 
-Theorem fq_session_fdt_late_delivers E parse_fdt cfg oti content enc toi md5 now pf id foti d inst pkts1 pkts2 :
+(* D44: the packets of pkts1 may carry the close-object flag; a flag in pkts2 only once pkts1 and the packets up to it are recoverable *)
+Theorem fq_session_fdt_late_delivers_any_flag_before_fdt E parse_fdt cfg oti content enc toi md5 now pf id foti d inst pkts1 pkts2 :
   let L := lenN_ content in
   fq_scheme_ok oti L -> fq_blocks_ok oti L -> toi <> 0 ->
   fdt_pkt_ok pf id foti d -> parse_fdt d = Some inst -> fdt_live cfg inst pf now ->
@@ -1288,8 +1336,8 @@ Theorem fq_session_fdt_late_delivers E parse_fdt cfg oti content enc toi md5 now
   Forall (fun p => a_toi p = toi) (pkts1 ++ pkts2) ->
   Forall (fun p => fq_genuine_pkt oti content enc p = true) (pkts1 ++ pkts2) ->
   Forall (fun p => fq_sized_pkt oti p = true) (pkts1 ++ pkts2) ->
-  Forall (fun p => a_oti p = Some (oti, L) /\ a_cenc p = None /\ a_close_obj p = false) pkts1 ->
-  fq_close_flag_ok oti L (pkts1 ++ pkts2) ->
+  Forall (fun p => a_oti p = Some (oti, L) /\ a_cenc p = None) pkts1 ->
+  close_flag_ok_after (fq_recoverable oti L) pkts1 pkts2 ->
   fq_recoverable oti L (pkts1 ++ pkts2) = true ->
   let '(_, r, c) := recv_run E parse_fdt cfg recv0 (map (fun p => RvPush p now) (pkts1 ++ pf :: pkts2)) ctx0 in
   session_delivered cfg inst content toi r c.
@@ -1313,18 +1361,41 @@ Proof.
   apply Forall_app in T. destruct T as [T1 T2]. apply Forall_app in G. destruct G as [G1 G2]. apply Forall_app in Z. destruct Z as [Z1 Z2].
   pose proof (Gall _ G1 Z1) as G1'. pose proof (Gall _ G2 Z2) as G2'.
   assert (P1 : Forall (pktprer oti content enc toi al as_ nal n) pkts1).
-  { rewrite Forall_forall in *. intros p Hp. destruct (Pre1 p Hp) as (A1 & A2 & A3).
-    split; [exact (T1 p Hp)|]. split; [exact A1|]. split; [exact A2|]. split; [exact A3|exact (G1' p Hp)]. }
+  { rewrite Forall_forall in *. intros p Hp. destruct (Pre1 p Hp) as (A1 & A2).
+    split; [exact (T1 p Hp)|]. split; [exact A1|]. split; [exact A2|exact (G1' p Hp)]. }
   pose proof (rs_late_core E parse_fdt cfg oti content enc toi md5 al as_ nal n now Hfec He Hb HL Hu Hpart' Htoi Hsound HM Nc Hacc
                 id inst f F1 F2 F3 F4 F5 pf foti d Hpf Hparse Hlive pkts1 pkts2 P1 G2' T2) as D.
   assert (D' : let '(_, r, c) := recv_run E parse_fdt cfg recv0 (map (fun p => RvPush p now) (pkts1 ++ pf :: pkts2)) ctx0 in
                SessDone cfg content toi f r c).
   { apply D.
-    - intros pre p post Eq Hp. apply Cov. rewrite app_assoc. apply (Cl (pkts1 ++ pre) p post); [|exact Hp].
-      rewrite Eq, <- app_assoc. reflexivity.
+    - intros pre p post Eq Hp. apply Cov. exact (Cl pre p post Eq Hp).
     - apply Cov. exact Rec. }
   destruct (recv_run E parse_fdt cfg recv0 (map (fun p => RvPush p now) (pkts1 ++ pf :: pkts2)) ctx0) as [[xs r] c].
   eapply sess_done_delivered; eassumption.
+Qed.
+
+(* the statement as it was before D44 was repaired: a corollary *)
+Theorem fq_session_fdt_late_delivers E parse_fdt cfg oti content enc toi md5 now pf id foti d inst pkts1 pkts2 :
+  let L := lenN_ content in
+  fq_scheme_ok oti L -> fq_blocks_ok oti L -> toi <> 0 ->
+  fdt_pkt_ok pf id foti d -> parse_fdt d = Some inst -> fdt_live cfg inst pf now ->
+  fdt_entry_for (fi_files inst) (fi_oti inst) toi oti L md5 ->
+  writer_accepts E toi -> writes_succeed E toi -> md5_good E content md5 ->
+  fq_oracle_sound E oti content enc toi -> fq_oracle_complete E oti content enc toi ->
+  L <= cf_max_cache cfg -> nb_blocks_of oti L <= 4097 ->
+  Forall (fun p => a_toi p = toi) (pkts1 ++ pkts2) ->
+  Forall (fun p => fq_genuine_pkt oti content enc p = true) (pkts1 ++ pkts2) ->
+  Forall (fun p => fq_sized_pkt oti p = true) (pkts1 ++ pkts2) ->
+  Forall (fun p => a_oti p = Some (oti, L) /\ a_cenc p = None /\ a_close_obj p = false) pkts1 ->
+  fq_close_flag_ok oti L (pkts1 ++ pkts2) ->
+  fq_recoverable oti L (pkts1 ++ pkts2) = true ->
+  let '(_, r, c) := recv_run E parse_fdt cfg recv0 (map (fun p => RvPush p now) (pkts1 ++ pf :: pkts2)) ctx0 in
+  session_delivered cfg inst content toi r c.
+Proof.
+  intros L. intros.
+  apply (fq_session_fdt_late_delivers_any_flag_before_fdt E parse_fdt cfg oti content enc toi md5 now pf id foti d inst pkts1 pkts2); try assumption.
+  - match goal with H : Forall _ pkts1 |- _ => eapply Forall_impl; [|exact H] end. intros p (A1 & A2 & _). split; assumption.
+  - apply close_flag_ok_after_of_whole. assumption.
 Qed.
 
 Print Assumptions nocode_session_fdt_first_via_iface.
@@ -1333,6 +1404,9 @@ Print Assumptions rs_session_fdt_first_delivers.
 Print Assumptions rs_session_fdt_late_delivers.
 Print Assumptions fq_session_fdt_first_delivers.
 Print Assumptions fq_session_fdt_late_delivers.
+Print Assumptions nocode_session_fdt_late_via_iface_any_flag_before_fdt.
+Print Assumptions rs_session_fdt_late_delivers_any_flag_before_fdt.
+Print Assumptions fq_session_fdt_late_delivers_any_flag_before_fdt.
 
 (* ================= X. toy sessions: non-vacuity through recv_run ================= *)
 (* the FDT "document" tx_doc of C02Session.v, parsed to an instance listing TOI 7 with the OTI [o] and length L;
@@ -1416,6 +1490,71 @@ Proof.
   - repeat constructor.
   - repeat constructor.
   - apply rs_close_flag_ok_noflag. repeat constructor.
+  - vm_compute. reflexivity.
+Qed.
+
+(* D44: the vocabulary of the theorems without the flag premise *)
+Lemma close_flag_after_of_whole_all oti L pkts1 pkts2 :
+  (close_flag_ok oti L (pkts1 ++ pkts2) -> close_flag_ok_after (recoverable oti L) pkts1 pkts2)
+  /\ (rs_close_flag_ok oti L (pkts1 ++ pkts2) -> close_flag_ok_after (rs_recoverable oti L) pkts1 pkts2)
+  /\ (fq_close_flag_ok oti L (pkts1 ++ pkts2) -> close_flag_ok_after (fq_recoverable oti L) pkts1 pkts2).
+Proof. repeat split; apply close_flag_ok_after_of_whole. Qed.
+
+Lemma close_flag_after_basics (rec : list apkt -> bool) pkts1 :
+  (forall pkts2, Forall (fun p => a_close_obj p = false) pkts2 -> close_flag_ok_after rec pkts1 pkts2)
+  /\ (forall body lst, Forall (fun q => a_close_obj q = false) body -> rec (pkts1 ++ body ++ [lst]) = true ->
+                       close_flag_ok_after rec pkts1 (body ++ [lst])).
+Proof. split; [apply close_flag_ok_after_noflag|apply close_flag_ok_after_last]. Qed.
+
+Lemma close_flag_after_statement (rec : list apkt -> bool) pkts1 pkts2 :
+  close_flag_ok_after rec pkts1 pkts2 <->
+  (forall pre p post, pkts2 = pre ++ p :: post -> a_close_obj p = true -> rec (pkts1 ++ pre ++ [p]) = true).
+Proof. reflexivity. Qed.
+
+(* D44: a whole in-order LAST transfer of the Reed-Solomon object (source and parity symbols, EXT_FTI on every packet,
+   the close-object flag on its last packet) arrives entirely BEFORE the single FDT packet: the flag is ignored (no
+   writer yet), the FDT packet opens the writer and the decoded blocks are flushed: delivered - by computation and by
+   the theorem without the flag premise.  2nd run: the flag on the very FIRST packet received, before the FDT packet and
+   long before the object is recoverable; the rest follows the FDT packet: delivered all the same. *)
+Definition exr_last_transfer : list apkt :=
+  map (with_fti_of exr_oti 5)
+      [rs_pkt 7 0 0 false [1; 2]; rs_pkt 7 0 1 false [3; 4]; rs_pkt 7 0 2 false [2; 6]; rs_pkt 7 1 0 false [5; 0];
+       rs_pkt 7 1 1 true [5; 0]].
+
+Example rs_close_flag_before_fdt_now_delivered :
+  forallb (rs_genuine_pkt exr_oti exr_content exr_rep) exr_last_transfer = true
+  /\ map a_close_obj exr_last_transfer = [false; false; false; false; true]
+  /\ sess_env env_xor (txr_parse exr_oti 5) (tx_cfg true false) (exr_last_transfer ++ [tx_fdt None])
+     = ([POk; POk; POk; POk; POk; POk], [], [7], [], delivered_log)
+  /\ sess_env env_xor (txr_parse exr_oti 5) (tx_cfg true false)
+              (with_fti_of exr_oti 5 (rs_pkt 7 1 1 true [5; 0]) :: tx_fdt None :: firstn 4 exr_last_transfer)
+     = ([POk; POk; POk; POk; POk; POk], [], [7], [], delivered_log).
+Proof. vm_compute. repeat split. Qed.
+
+Example rs_close_flag_before_fdt_by_theorem :
+  let '(_, r, c) := recv_run env_xor (txr_parse exr_oti 5) (tx_cfg true false) recv0
+                             (map (fun p => RvPush p 100%Z) (exr_last_transfer ++ tx_fdt None :: [])) ctx0 in
+  session_delivered (tx_cfg true false) (txr_inst exr_oti 5) exr_content 7 r c.
+Proof.
+  apply (rs_session_fdt_late_delivers_any_flag_before_fdt env_xor (txr_parse exr_oti 5) (tx_cfg true false) exr_oti exr_content exr_rep 7 None 100%Z
+           (tx_fdt None) 1 tx_foti tx_doc (txr_inst exr_oti 5) exr_last_transfer []).
+  - split; [left; reflexivity|]. repeat split; vm_compute; reflexivity.
+  - vm_compute. reflexivity.
+  - discriminate.
+  - apply tx_fdt_ok.
+  - reflexivity.
+  - left. reflexivity.
+  - exists (mk_ff 7 CNull (Some exr_oti) 5 None None false). repeat split.
+  - split; reflexivity.
+  - intros i. reflexivity.
+  - exact I.
+  - exact xor_dec_mds.
+  - vm_compute. discriminate.
+  - vm_compute. discriminate.
+  - repeat constructor.
+  - repeat constructor.
+  - repeat constructor.
+  - apply close_flag_ok_after_noflag. constructor.
   - vm_compute. reflexivity.
 Qed.
 
